@@ -213,6 +213,20 @@ reg(Spec("C11", "c11_memviews.cpp", needs=("shim", "optable"),
                       "A32 accessors take a 17-bit data address (upper bits ignored, as documented by their mask)",
                       "eight scratch program words at 0x3FF00 hold the guest instruction under execution"]))
 
+reg(Spec("C07", "c07_interrupts.cpp", needs=("shim", "optable"),
+         cases={"quick": 1500, "thorough": 40000},
+         rule="rapidcheck-generated histories (<=60 ops) on one real Teakra instance whose memory is a nop sled: Step(1..5 "
+              "instructions, each a separate Run(1)), Trigger / Ack (bit masks biased to one-hot, all, pairs), SetEnable(line) / "
+              "SetVectorEnable / SetVector(irq, address, context flag), PokeCore (ie, im0-2, imv, ic0-2, crep, ccnta, cpc + "
+              "distinguishable banks), Exec(eint | dint | reti | retic | rep #n), TimerStart(timer, 1..5 cycles), host SendData, a "
+              "one-word DMA start, the audio port running empty after 4096-cycle frames. After every instruction step the full "
+              "register state, the two stack words at sp and the controller's pending register are compared with the independent "
+              "ICU + core interrupt model (context stores included). Non-trivial = history with >= 1 handler entry; distinct by "
+              "hash of the op list.",
+         assumptions=["when one trigger raises several vectored IRQs the property does not say whose vector is latched: any of them is accepted",
+                      "vector addresses and the sled stay below the data area (program and data space share one array)",
+                      "entries are compared per instruction step; the 4096-cycle audio frames are run in one Run call and compared at their end"]))
+
 # Properties not (yet) claimed. Kept current by hand; every id in properties.jsonl is either in SPECS or here.
 _PENDING = "check not built yet in this round; planned with property-based testing per DESIGN.md"
 NOT_APPLICABLE = [{"property_id": "C%02d" % i, "reason": _PENDING} for i in range(1, 21) if "C%02d" % i not in SPECS]
